@@ -212,7 +212,8 @@ class Interp(ExprEnc):
         self.trap = z3.BoolVal(False)
         self.aborted = z3.BoolVal(False)
         self.unwind_violation = z3.BoolVal(False)
-        self.outputs = []            # list of (guard, [terms])  from PRINT
+        self.outputs = []            # list of (guard, [terms])  from PRINT (and, with trace_pragmas, pragma annotations)
+        self.trace_pragmas = False   # record every pragma reached (free node, region delimiter or attached to a node)
         self.trap_reasons = []
         self._fresh = itertools.count()
         self.inputs = {}             # name -> term (all named symbolic inputs)
@@ -652,13 +653,20 @@ class Interp(ExprEnc):
                 val = self.sem.coerce_store(self.enc(t.initial), sort)
                 for idx in a.index_list():
                     a.elems[idx] = val
+            elif is_input and isinstance(self.sizes.get(name), (list, tuple)):
+                # concretised input array (index arrays: section bounds / subscripts must be concrete); element order
+                vals = list(self.sizes[name])
+                if len(vals) != len(a.index_list()) or sort != self.sem.isort:
+                    raise NotEncoded(f'concrete values for {name} do not match its declaration')
+                for idx, val in zip(a.index_list(), vals):
+                    a.elems[idx] = self.sem.int_lit(val)
             elif is_input:
                 a.fill(self, prefix)
             else:
                 for idx in a.index_list():
                     a.elems[idx] = self.fresh(sort, f'undef_{name}')
             return a
-        if name in self.sizes and sort == self.sem.isort:
+        if name in self.sizes and sort == self.sem.isort and isinstance(self.sizes[name], int):
             return Cell(sort, self.sem.int_lit(self.sizes[name]), name)
         if t.initial is not None:
             return Cell(sort, self.sem.coerce_store(self.enc(t.initial), sort), name)
@@ -702,8 +710,30 @@ class Interp(ExprEnc):
         self.collect_stmtfuncs(routine, fr)
         self.declare(routine.variables, fr, is_input=False)
         self.register_entry_names(fr)
+        self.note_spec_pragmas(routine, self.pc)
         self.exec_body(routine.body.body, fr)
         return fr
+
+    def note_spec_pragmas(self, routine, pc):
+        if not self.trace_pragmas or routine.spec is None:
+            return
+
+        def walk(nodes):
+            for n in nodes:
+                if isinstance(n, ir.Pragma):
+                    self.note_pragmas(n, pc)
+                elif isinstance(n, ir.PragmaRegion):
+                    self.note_pragmas(n.pragma, pc)
+                    walk(n.body)
+                    self.note_pragmas(n.pragma_post, pc)
+                elif isinstance(n, (tuple, list)):
+                    walk(n)
+                else:
+                    self.note_pragmas(getattr(n, 'pragma', None), pc)
+                    if isinstance(n, ir.Section):
+                        walk(n.body)
+                    self.note_pragmas(getattr(n, 'pragma_post', None), pc)
+        walk(routine.spec.body)
 
     def enclosing_frame(self, routine):
         p = getattr(routine, 'parent', None)
@@ -762,6 +792,7 @@ class Interp(ExprEnc):
         self.declare(locals_, fr, is_input=False)
         saved_pc = self.pc
         try:
+            self.note_spec_pragmas(callee, self.pc)
             self.exec_body(callee.body.body, fr)
         finally:
             self.frame = caller
@@ -912,7 +943,12 @@ class Interp(ExprEnc):
                 self.node_stack.append((n, k, pc))
                 pushed = True
         try:
-            return self.exec_node(n, fr, pc)
+            if self.trace_pragmas and not isinstance(n, ir.PragmaRegion):
+                self.note_pragmas(getattr(n, 'pragma', None), pc)
+            res = self.exec_node(n, fr, pc)
+            if self.trace_pragmas and not isinstance(n, ir.PragmaRegion):
+                self.note_pragmas(getattr(n, 'pragma_post', None), pc)
+            return res
         finally:
             self.pc = outer_pc
             self.sem.guard = outer_pc
@@ -920,14 +956,32 @@ class Interp(ExprEnc):
             if pushed:
                 self.node_stack.pop()
 
+    def note_pragmas(self, pragmas, pc):
+        """pragma annotations are part of the observable trace (keyword + content, case/blank-insensitive)"""
+        if pragmas is None:
+            return
+        if isinstance(pragmas, ir.Pragma):
+            pragmas = (pragmas,)
+        for p in pragmas:
+            if isinstance(p, ir.Pragma):
+                text = ''.join(f'!${p.keyword} {p.content or ""}'.lower().split())     # blanks are not significant
+                self.outputs.append((pc, [('str', text)]))
+
     def exec_node(self, n, fr, pc):  # pylint: disable=too-many-branches,too-many-statements
+        if isinstance(n, ir.Pragma) and self.trace_pragmas:
+            return self.note_pragmas(n, pc)
         if isinstance(n, (ir.Comment, ir.CommentBlock, ir.Pragma, ir.VariableDeclaration, ir.ProcedureDeclaration,
                           ir.Import, ir.Interface, ir.TypeDef, ir.StatementFunction, ir.PreprocessorDirective)):
             return
         if isinstance(n, ir.Associate):
             return self.exec_associate(n, fr, pc)
         if isinstance(n, ir.PragmaRegion):
-            return self.exec_body(n.body, fr)
+            if self.trace_pragmas:
+                self.note_pragmas(n.pragma, pc)
+            self.exec_body(n.body, fr)
+            if self.trace_pragmas:
+                self.note_pragmas(n.pragma_post, z3.simplify(z3.And(fr.live(self.pc), z3.Not(self.aborted))))
+            return None
         if isinstance(n, ir.Section):
             return self.exec_body(n.body, fr)
         if isinstance(n, ir.Assignment):
